@@ -123,3 +123,31 @@ func VerifRawSocketDelivery() {
 	verifAssert(ec == failed, "the error counter counts failed attempts")
 	verifReach("end")
 }
+
+// C14, configurations: the collector starts one producer per protocol, all with the same
+// back-end name. Each must own its driver state: a message handed to the first producer goes to
+// the first producer's sink whatever the second producer has been configured with since.
+func VerifProducerOwnDriver() {
+	verifAttempts, verifDials, verifNextConn = nil, nil, 0
+	p1 := NewProducer("rawSocket")
+	p2 := NewProducer("rawSocket")
+	r1, ok1 := p1.MQ.(*RawSocket)
+	r2, ok2 := p2.MQ.(*RawSocket)
+	verifAssert(verifAll(ok1, ok2), "NewProducer(\"rawSocket\") yields the raw-socket driver")
+	// what setup() establishes, for two differently configured sinks (first producer first)
+	r1.config = RawSocketConfig{URL: "sink-a:9555", Protocol: "tcp", MaxRetry: 0}
+	r1.connection = &verifConn{id: 1}
+	r1.logger = log.New(io.Discard, "", 0)
+	r2.config = RawSocketConfig{URL: "sink-b:9555", Protocol: "tcp", MaxRetry: 0}
+	r2.connection = &verifConn{id: 2}
+	r2.logger = log.New(io.Discard, "", 0)
+	m := verifNondetBytes(2)
+	p1.Chan = make(chan []byte, 1)
+	p1.Chan <- m
+	close(p1.Chan)
+	var ec uint64
+	p1.MQ.inputMsg("topic", p1.Chan, &ec)
+	verifAssert(len(verifAttempts) >= 1, "the message is attempted")
+	verifAssert(verifAttempts[0].conn == 1, "a message handed to the first producer is written to the first producer's sink")
+	verifReach("end")
+}
